@@ -36,10 +36,12 @@ from __future__ import annotations
 
 import ast
 import itertools
+import time as _time
 from typing import Optional
 
 import numpy as np
 import sympy as sp
+from sympy.polys.domains import QQ as _QQ
 
 from ..core.astutil import u, dotted, methods, body_nodoc
 from ..core.loader import AnchorError, Undecided
@@ -74,6 +76,10 @@ MIN_INSTANCES = {"R1": 12, "R2": 66, "R3": 39, "R4": 32, "R5": 12, "R6": 5}
 #  symbolic family: symbols, exact rational placements, norm symbols
 # ======================================================================================================
 
+class _IsNaN(Exception):
+    pass
+
+
 class KernelRaises(Exception):
     """the interpreted code raises on the (valid) instance"""
 
@@ -88,6 +94,34 @@ class ShapeFault(Exception):
     def __init__(self, what: str, node=None):
         super().__init__(what)
         self.what, self.node = what, node
+
+
+class NaNTerm:
+    """result of a division by the zero term: numpy yields nan / inf (with a warning) and carries on; so does the evaluator"""
+
+    def _same(self, *a):
+        return self
+
+    __add__ = __radd__ = __sub__ = __rsub__ = __mul__ = __rmul__ = __truediv__ = __rtruediv__ = __pow__ = __rpow__ = _same
+    __neg__ = __pos__ = __abs__ = _same
+
+    def __eq__(self, o):
+        return False
+
+    def __ne__(self, o):
+        return True
+
+    def __hash__(self):
+        return 7
+
+    def __bool__(self):
+        return True
+
+    def __repr__(self):
+        return "nan"
+
+
+NAN = NaNTerm()
 
 
 class T:
@@ -141,6 +175,8 @@ class T:
 
     # -- coercion ----------------------------------------------------------------------------------
     def _co(self, o):
+        if isinstance(o, NaNTerm):
+            raise _IsNaN()
         if isinstance(o, T):
             if o.fam is not self.fam:
                 raise Undecided("C19: terms of two instance families combined")
@@ -190,6 +226,8 @@ class T:
     def __add__(self, o):
         try:
             o = self._co(o)
+        except _IsNaN:
+            return NAN
         except TypeError:
             return NotImplemented
         if self.den == o.den:
@@ -221,16 +259,20 @@ class T:
     def __sub__(self, o):
         try:
             o = self._co(o)
+        except _IsNaN:
+            return NAN
         except TypeError:
             return NotImplemented
         return self + (-o)
 
     def __rsub__(self, o):
-        return (-self) + o
+        return NAN if isinstance(o, NaNTerm) else (-self) + o
 
     def __mul__(self, o):
         try:
             o = self._co(o)
+        except _IsNaN:
+            return NAN
         except TypeError:
             return NotImplemented
         if self.p == 0 or o.p == 0:
@@ -273,10 +315,12 @@ class T:
     def __truediv__(self, o):
         try:
             o = self._co(o)
+        except _IsNaN:
+            return NAN
         except TypeError:
             return NotImplemented
         if o.p == 0:
-            raise ZeroDivisionError("division by the zero term")
+            return NAN
         if not o.den and o.p.is_ground:
             return T(self.fam, self.p / o.p.LC, self.den)
         # multiply by the denominator keys of o one by one (cancelling against own keys), then divide by its numerator
@@ -293,6 +337,8 @@ class T:
         return T(self.fam, res.p / c, D).simplify()
 
     def __rtruediv__(self, o):
+        if isinstance(o, NaNTerm) or self.p == 0:
+            return NAN
         return self._co(o) * self.inv()
 
     def __pow__(self, n):
@@ -322,7 +368,8 @@ class T:
 
 
 NPOOL = 40
-WORK_MAX = 3_000_000
+WORK_MAX = 1_500_000
+CPU_MAX = 15.0
 
 
 class Fam:
@@ -347,13 +394,19 @@ class Fam:
         self.one = T(self, self.ring(1))
         self._mono: dict = {}
         self.work = 0
+        self.t0 = _time.process_time()
         self._sqrt_cache: dict = {}
         self._sym = {s: T(self, g) for s, g in zip(self.symbols, gens)}
+
+    def restart_budget(self):
+        self.work, self.t0 = 0, _time.process_time()
 
     # ---- construction -----------------------------------------------------------------------------
     def const(self, v):
         if isinstance(v, T):
             return v
+        if isinstance(v, NaNTerm) or (isinstance(v, sp.Basic) and v in (sp.zoo, sp.nan, sp.oo, -sp.oo)):
+            raise _IsNaN()
         if isinstance(v, (bool, np.bool_)):
             v = int(v)
         if isinstance(v, (int, np.integer)):
@@ -361,8 +414,7 @@ class Fam:
         if isinstance(v, (float, np.floating)):
             v = sp.nsimplify(float(v), rational=True)
         if isinstance(v, sp.Rational):
-            from sympy.polys.domains import QQ
-            return T(self, self.ring(QQ(int(v.p), int(v.q))))
+            return T(self, self.ring(_QQ(int(v.p), int(v.q))))
         if isinstance(v, sp.Basic):
             return self.from_expr(v)
         raise TypeError(f"not a term: {type(v).__name__}")
@@ -373,13 +425,13 @@ class Fam:
             return self.const(sp.Rational(e))
         extra = e.free_symbols - set(self.symbols)
         if extra:
-            raise Undecided(f"C19 [{self.name}]: symbols {sorted(map(str, extra))} are not part of the instance family")
+            raise Undecided(f"[{self.name}]: symbols {sorted(map(str, extra))} are not part of the instance family")
         n, d = sp.fraction(sp.together(e))
         try:
             tn = T(self, self.ring.from_expr(sp.expand(n)))
             td = T(self, self.ring.from_expr(sp.expand(d)))
         except Exception as err:   # sqrt / functions in an input expression
-            raise Undecided(f"C19 [{self.name}]: cannot convert `{str(e)[:60]}` to a polynomial term ({type(err).__name__})")
+            raise Undecided(f"[{self.name}]: cannot convert `{str(e)[:60]}` to a polynomial term ({type(err).__name__})")
         return tn / td
 
     def to_expr(self, t):
@@ -428,10 +480,7 @@ class Fam:
             return None
         if len(p) < len(d):
             return None
-        # necessary condition: divisibility at the first placement (cheap) before the polynomial division
-        v, sc = self.pval(d, 0)
-        if abs(v) > 1e-10 * sc and not any(i in self.rad for i in range(self.nb, self.ring.ngens) if any(m[i] for m in d.keys())):
-            pass
+        self.spend(len(p) * len(d))
         q, r = p.div(d)
         return q if r == 0 else None
 
@@ -458,10 +507,16 @@ class Fam:
         i = m.index(1)
         return i if i in self.rad else None
 
+    def spend(self, n: int):
+        self.work += n
+        if self.work > WORK_MAX or (self.work & 0xff == 0 and _time.process_time() - self.t0 > CPU_MAX):
+            raise Undecided(f"[{self.name}]: term explosion (more than {WORK_MAX} monomial products or {CPU_MAX} s) - the formulas do not "
+                            f"simplify on this instance")
+
     def mul(self, p, q, common=None):
-        self.work += len(p) * len(q)
-        if self.work > WORK_MAX:
-            raise Undecided(f"C19 [{self.name}]: term explosion (more than {WORK_MAX} monomial products) - the formulas do not simplify on this instance")
+        self.spend(len(p) * len(q))
+        if _time.process_time() - self.t0 > CPU_MAX:
+            raise Undecided(f"[{self.name}]: time budget of {CPU_MAX} s per instance exhausted")
         r = p * q
         if self.rad and (common is None or common):
             r = self.reduce_p(r, common)
@@ -524,6 +579,8 @@ class Fam:
 
     # ---- numeric values at the placements ---------------------------------------------------------
     def nums(self, t) -> list[float]:
+        if isinstance(t, NaNTerm):
+            return [float("nan")] * len(self.place)
         t = self.const(t)
         out = []
         for k in range(len(self.place)):
@@ -533,7 +590,7 @@ class Fam:
             for key, e in t.den.items():
                 d, dsc = self.pval(key, k)
                 if abs(d) <= 1e-10 * dsc:
-                    raise Undecided(f"C19 [{self.name}]: a denominator vanishes at a placement")
+                    raise Undecided(f"[{self.name}]: a denominator vanishes at a placement")
                 v /= d ** e
             out.append(v)
         return out
@@ -555,6 +612,8 @@ class Fam:
         """sign of a term, identical at every placement (else Undecided); 0 only for the zero term"""
         if isinstance(t, (int, np.integer)):
             return (t > 0) - (t < 0)
+        if isinstance(t, NaNTerm):
+            raise Undecided(f"[{self.name}]: a data-dependent decision ({what}) on a nan (result of a division by zero)")
         if isinstance(t, sp.Basic) and t.is_number:
             return int(sp.sign(t))
         t = self.const(t)
@@ -563,24 +622,28 @@ class Fam:
         vals = self.nums(t)
         sg = {(0 if v == 0.0 else (1 if v > 0 else -1)) for v in vals}
         if len(sg) != 1:
-            raise Undecided(f"C19 [{self.name}]: a data-dependent decision ({what or repr(t)[:60]}) falls differently on the placements")
+            raise Undecided(f"[{self.name}]: a data-dependent decision ({what or repr(t)[:60]}) falls differently on the placements")
         s = sg.pop()
         if s == 0:
-            raise Undecided(f"C19 [{self.name}]: cannot decide the sign of a non-zero term that vanishes at every placement ({what or repr(t)[:60]})")
+            raise Undecided(f"[{self.name}]: cannot decide the sign of a non-zero term that vanishes at every placement ({what or repr(t)[:60]})")
         return s
 
     def iszero(self, t):
         """True: identically zero (proved); False: non-zero at a placement (refuted); Undecided otherwise"""
         if isinstance(t, (int, np.integer)):
             return t == 0
+        if isinstance(t, NaNTerm):
+            return False
         t = self.const(t)
         if t.p == 0:
             return True
         if any(v != 0.0 for v in self.nums(t)):
             return False
-        raise Undecided(f"C19 [{self.name}]: a residual vanishes at every placement but not as a reduced polynomial: {repr(t)[:100]}")
+        raise Undecided(f"[{self.name}]: a residual vanishes at every placement but not as a reduced polynomial: {repr(t)[:100]}")
 
     def witness(self, t) -> dict:
+        if isinstance(t, NaNTerm):
+            return {"placement": {str(s): str(v) for s, v in self.place[0].items()}, "residual": float("nan")}
         vals = self.nums(t)
         k = max(range(len(vals)), key=lambda i: abs(vals[i]))
         return {"placement": {str(s): str(v) for s, v in self.place[k].items()}, "residual": vals[k]}
@@ -592,17 +655,19 @@ class Fam:
         if i is None:
             i = self.nb + len(self.norm_of)
             if i >= self.nb + NPOOL:
-                raise Undecided(f"C19 [{self.name}]: more than {NPOOL} distinct square roots")
+                raise Undecided(f"[{self.name}]: more than {NPOOL} distinct square roots")
             for k in range(len(self.place)):
                 v, sc = self.pval(rad, k)
                 if v <= 1e-10 * sc:
-                    raise Undecided(f"C19 [{self.name}]: radicand not positive at a placement")
+                    raise Undecided(f"[{self.name}]: radicand not positive at a placement")
                 self.fvals[k][i] = v ** 0.5
             self.norm_of[rad] = i
             self.rad[i] = rad
         return self.gens[i]
 
     def sqrt(self, t):
+        if isinstance(t, NaNTerm):
+            return NAN
         if isinstance(t, sp.Basic) and t.is_number and not isinstance(t, T):
             t = sp.nsimplify(t, rational=True)
         t = self.const(t)
@@ -627,33 +692,23 @@ class Fam:
         return res
 
     def _sqrt_poly(self, p):
+        """sqrt of a polynomial that is positive at the placements:  |g| * sqrt(k) * L  with  p == k * g**2 * rad,  rad square-free,
+        L the norm symbol of rad (times the square-free part of the rational constant)"""
         from sympy.polys.rings import ring as mkring
-        from sympy.polys.domains import ZZ, QQ
-        if any(m[i] for m in p.keys() for i in self.rad):
-            raise Undecided(f"C19 [{self.name}]: nested radical")
+        from sympy.polys.domains import ZZ
+        # a radicand may contain earlier norm symbols (tower of square roots): proofs by reduction stay sound, refutations are numeric
+        if self.sign(T(self, p), "radicand") < 0:
+            raise Undecided(f"[{self.name}]: square root of a negative term")
         c, prim = self.primitive(p)
-        sgn = self.sign(T(self, prim), "radicand")
-        if (c > 0) != (sgn > 0):
-            raise Undecided(f"C19 [{self.name}]: square root of a negative term")
-        if sgn < 0:
-            c, prim = -c, -prim
-        # rational content: c = (n/d) -> sqrt(n*d)/d with square factors pulled out
-        n, d = int(c.numerator), int(c.denominator)
-        out_c = sp.Rational(1, d)
-        nd = n * d
-        sq, rest = 1, 1
-        for f, m in sp.factorint(nd).items():
-            sq *= f ** (m // 2)
-            rest *= f ** (m % 2)
-        out_c = out_c * sq
         # square-free decomposition of prim in a compact ring of its own generators (Musser, gcd with all partial derivatives)
         used = [i for i in range(self.ring.ngens) if any(m[i] for m in prim.keys())]
         facs = [(prim, 1)]
         if used:
-            Rz, *gz = mkring([str(self.gens[i]) for i in used], ZZ)
+            Rz, *gz = mkring([self.ring.symbols[i] for i in used], ZZ)
             pz = Rz.zero
             for m, co in prim.terms():
                 pz = pz + Rz.term_new(tuple(m[i] for i in used), int(co))
+            self.spend(len(pz) * len(pz))
             G = pz
             for x in gz:
                 dx = pz.diff(x)
@@ -674,7 +729,7 @@ class Fam:
                     cc = cc.exquo(y)
                     i += 1
                     if i > 12:
-                        raise Undecided(f"C19 [{self.name}]: square-free decomposition did not terminate")
+                        raise Undecided(f"[{self.name}]: square-free decomposition did not terminate")
 
                 def back(q):
                     r = self.ring.zero
@@ -682,51 +737,43 @@ class Fam:
                         mm = [0] * self.ring.ngens
                         for j, i_ in enumerate(used):
                             mm[i_] = m[j]
-                        r = r + self.ring.term_new(tuple(mm), QQ(int(co)))
+                        r = r + self.ring.term_new(tuple(mm), _QQ(int(co)))
                     return r
                 facs = [(back(z), m) for z, m in facs_z]
-                # constant left over (sign / content of the factors): compare leading coefficients
-                prod = self.one_p
-                for f, m in facs:
-                    prod = prod * f ** m
-                ratio = prim.LC / prod.LC
-                if prod * ratio != prim:
-                    raise Undecided(f"C19 [{self.name}]: square-free decomposition does not reproduce the radicand")
-                if ratio != 1:
-                    if ratio < 0:
-                        raise Undecided(f"C19 [{self.name}]: sign of a square-free factor")
-                    rn, rd = int(ratio.numerator), int(ratio.denominator)
-                    for f_, m_ in sp.factorint(rn * rd).items():
-                        out_c = out_c * f_ ** (m_ // 2)
-                        rest *= f_ ** (m_ % 2)
-                    out_c = out_c / rd
-                    # rest may now contain squares
-                    sq2 = 1
-                    for f_, m_ in sp.factorint(rest).items():
-                        sq2 *= f_ ** (m_ // 2)
-                    out_c, rest = out_c * sq2, rest // (sq2 * sq2)
-        outer = self.const(out_c)
-        rad = self.one_p
+        g, rad = self.one_p, self.one_p
         for f, m in facs:
-            ft = T(self, f)
             if m // 2:
-                h = ft ** (m // 2)
-                if (m // 2) % 2:
-                    h = h * self.sign(ft, "sign of a factor pulled out of a square root")
-                outer = outer * h
+                g = g * f ** (m // 2)
             if m % 2:
                 rad = rad * f
-        if rest != 1:
-            rad = rad * rest
-        if rad == self.one_p:
-            return outer
-        cr, radp = self.primitive(rad)
-        if cr != 1 or self.sign(T(self, radp), "radicand") < 0:
-            # the content was removed above; a negative square-free part cannot happen for a positive radicand with positive square factors
+        chk = g * g * rad
+        k = prim.LC / chk.LC
+        if chk * k != prim:
+            raise Undecided(f"[{self.name}]: square-free decomposition does not reproduce the radicand")
+        if rad.is_ground:
+            coef, radp = c * k * rad.LC, self.one_p
+        else:
+            cr, radp = self.primitive(rad)
+            coef = c * k * cr
             if self.sign(T(self, radp), "radicand") < 0:
-                raise Undecided(f"C19 [{self.name}]: negative square-free part of a radicand")
-            radp = rad
-        return outer * T(self, self._norm_symbol(radp))
+                radp, coef = -radp, -coef
+        if coef <= 0:
+            raise Undecided(f"[{self.name}]: square root of a negative term")
+        a, b = int(coef.numerator), int(coef.denominator)
+        sq, rest = 1, 1
+        for f_, m_ in sp.factorint(a * b).items():
+            sq *= f_ ** (m_ // 2)
+            rest *= f_ ** (m_ % 2)
+        outer = T(self, g)
+        if not g.is_ground:
+            outer = outer * self.sign(outer, "sign of a factor pulled out of a square root")
+        elif g.LC < 0:
+            outer = -outer
+        outer = outer * self.const(sp.Rational(sq, b))
+        radf = radp * rest
+        if radf == self.one_p:
+            return outer
+        return outer * T(self, self._norm_symbol(radf))
 
 
 # ======================================================================================================
@@ -735,8 +782,10 @@ class Fam:
 
 def _S(v):
     """python / numpy number -> sympy number (exact)"""
-    if isinstance(v, (sp.Basic, T)):
+    if isinstance(v, (T, NaNTerm)):
         return v
+    if isinstance(v, sp.Basic):
+        return NAN if v in (sp.zoo, sp.nan, sp.oo, -sp.oo) else v
     if isinstance(v, (bool, np.bool_)):
         return sp.Integer(int(v))
     if isinstance(v, (int, np.integer)):
@@ -894,7 +943,18 @@ def _matmul_dense(A, B):
     if A2.dtype != object and B2.dtype != object:
         R = A2 @ B2
     else:
-        R = np.dot(obj(A2), obj(B2))
+        # explicit loops: an exception raised by a term operation inside numpy's object dot product is not propagated cleanly
+        Ao, Bo = obj(A2), obj(B2)
+        R = np.empty((Ao.shape[0], Bo.shape[1]), dtype=object)
+        for i in range(Ao.shape[0]):
+            for j in range(Bo.shape[1]):
+                acc = 0
+                for k in range(Ao.shape[1]):
+                    x, y = Ao[i, k], Bo[k, j]
+                    if (isinstance(x, (int, sp.Integer)) and x == 0) or (isinstance(y, (int, sp.Integer)) and y == 0):
+                        continue
+                    acc = acc + x * y
+                R[i, j] = acc
     if A.ndim == 1 and B.ndim == 1:
         return R[0, 0]
     if A.ndim == 1:
@@ -1133,6 +1193,15 @@ class Ev:
             return
         if isinstance(st, ast.Raise):
             raise KernelRaises(f"`{u(st)[:90]}` is reached", st)
+        if isinstance(st, ast.With):
+            # context managers of the numerical libraries (np.errstate, warnings.catch_warnings) do not change values
+            for it in st.items:
+                cm = it.context_expr
+                d = dotted(cm.func) if isinstance(cm, ast.Call) else None
+                if d is None or it.optional_vars is not None or d.split(".")[-1] not in ("errstate", "catch_warnings", "printoptions"):
+                    raise self.und(f"with-statement `{u(cm)[:50]}`", st)
+            self.run_body(st.body)
+            return
         if isinstance(st, ast.Delete):
             for t in st.targets:
                 if isinstance(t, ast.Name):
@@ -1149,6 +1218,8 @@ class Ev:
             return False
         if isinstance(v, (int, np.integer)):
             return bool(v)
+        if isinstance(v, NaNTerm):
+            return True
         if isinstance(v, T):
             return self.fam.sign(v, u(node)[:60]) != 0 if v.p != 0 else False
         if isinstance(v, sp.Basic):
@@ -1284,6 +1355,20 @@ class Ev:
             return self.binop(e.op, self.ev(e.left), self.ev(e.right), e)
         if isinstance(e, ast.IfExp):
             return self.ev(e.body) if self.truth(self.ev(e.test), e.test) else self.ev(e.orelse)
+        if isinstance(e, ast.NamedExpr) and isinstance(e.target, ast.Name):
+            v = self.ev(e.value)
+            self.scope.vars[e.target.id] = v
+            return v
+        if isinstance(e, ast.Dict):
+            out = {}
+            for k, v in zip(e.keys, e.values):
+                if k is None:
+                    raise self.und("dict unpacking", e)
+                kk = conc(self.ev(k))
+                if not isinstance(kk, (int, str, bool)):
+                    raise self.und(f"dict key `{u(k)[:30]}`", e)
+                out[kk] = self.ev(v)
+            return out
         if isinstance(e, ast.Attribute):
             return self.attribute(e)
         if isinstance(e, ast.Subscript):
@@ -1427,8 +1512,10 @@ class Ev:
                 try:
                     return base[idx]
                 except IndexError:
-                    raise KernelRaises(f"`{u(e)[:50]}` index out of range", e)
+                    raise self.und(f"`{u(e)[:50]}` index out of range", e)
         if isinstance(base, dict):
+            if idx not in base:
+                raise self.und(f"`{u(e)[:50]}`: key {idx!r} not in the modelled dictionary", e)
             return base[idx]
         raise self.und(f"subscript `{u(e)[:50]}`", e)
 
@@ -1531,7 +1618,7 @@ class Ev:
             sf.what = f"`{u(node)[:70]}`: {sf.what}"
             raise
         except ZeroDivisionError:
-            raise KernelRaises(f"division by zero in `{u(node)[:60]}`", node)
+            raise self.und(f"integer division by zero in `{u(node)[:60]}`", node)
         raise self.und(f"operator {type(op).__name__} in `{u(node)[:50]}`", node)
 
     def compare(self, op, l, r, node):
@@ -1568,6 +1655,8 @@ class Ev:
         what = u(node)[:60]
 
         def one(x):
+            if isinstance(x, NaNTerm):
+                return isinstance(op, ast.NotEq)     # numpy: every comparison with nan is False, except !=
             s = self.fam.sign(x, what)
             return bool(pyop(s, 0))
         if isinstance(d, np.ndarray):
@@ -1634,14 +1723,14 @@ class Ev:
         elif params and params[0] == "self" and c.scope is None and self.modrel == c.modrel:
             pass
         if len(pos) > len(params):
-            raise KernelRaises(f"`{u(node)[:60]}`: too many positional arguments for {fn.name}", node)
+            raise self.und(f"`{u(node)[:60]}`: too many positional arguments for {fn.name}", node)
         for p, v in zip(params, pos):
             scope.vars[p] = v
         for k, v in kw.items():
             if k in scope.vars:
-                raise KernelRaises(f"`{u(node)[:60]}`: multiple values for argument {k}", node)
+                raise self.und(f"`{u(node)[:60]}`: multiple values for argument {k}", node)
             if k not in params and k not in [p.arg for p in a.kwonlyargs]:
-                raise KernelRaises(f"`{u(node)[:60]}`: unexpected keyword {k}", node)
+                raise self.und(f"`{u(node)[:60]}`: unexpected keyword {k}", node)
             scope.vars[k] = v
         defaults = dict(zip(params[len(params) - len(a.defaults):], a.defaults))
         for p, d in zip(a.kwonlyargs, a.kw_defaults):
@@ -1651,7 +1740,7 @@ class Ev:
         for p in params + [p.arg for p in a.kwonlyargs]:
             if p not in scope.vars:
                 if p not in defaults:
-                    raise KernelRaises(f"`{u(node)[:60]}`: missing argument {p}", node)
+                    raise self.und(f"`{u(node)[:60]}`: missing argument {p}", node)
                 scope.vars[p] = Ev(self.w, Scope(c.scope), c.modrel, c.qual, self.depth + 1).ev(defaults[p])
         try:
             sub.run_body(body_nodoc(fn))
@@ -1670,6 +1759,12 @@ class Ev:
                 base.extend(self.iterate(args[0], node))
                 return None
             raise self.und(f"list method `{name}`", node)
+        if isinstance(base, dict):
+            if name == "get" and 1 <= len(args) <= 2:
+                return base.get(conc(args[0]), args[1] if len(args) == 2 else None)
+            if name in ("items", "keys", "values") and not args:
+                return [tuple(kv) for kv in base.items()] if name == "items" else list(getattr(base, name)())
+            raise self.und(f"dict method `{name}`", node)
         if isinstance(base, Mat):
             if name in ("ravel", "flatten", "squeeze") and not args:
                 return np.asarray(base).ravel()
@@ -2033,6 +2128,19 @@ class Ev:
             raise ShapeFault(f"`{u(node)[:70]}`: {err}", node)
         return None
 
+    def np_outer(self, a, b, node=None):
+        a, b = obj(np.asarray(a).ravel() if is_conc(a) else a.ravel()), obj(np.asarray(b).ravel() if is_conc(b) else b.ravel())
+        out = np.empty((a.shape[0], b.shape[0]), dtype=object)
+        for i in range(a.shape[0]):
+            for j in range(b.shape[0]):
+                out[i, j] = a[i] * b[j]
+        return out
+
+    def np_count_nonzero(self, a, node=None, axis=None):
+        a = conc(a)
+        r = np.count_nonzero(a, axis=self._axis(axis, node))
+        return int(r) if not isinstance(r, np.ndarray) else r
+
     def np_negative(self, a, node=None):
         return self.binop(ast.Mult(), -1, a, node)
 
@@ -2047,9 +2155,9 @@ class Ev:
             out = np.empty(a.shape, dtype=object)
             of, fl = out.ravel(), a.ravel()
             for i in range(fl.size):
-                of[i] = fl[i] * self.fam.sign(fl[i], "np.abs")
+                of[i] = NAN if isinstance(fl[i], NaNTerm) else fl[i] * self.fam.sign(fl[i], "np.abs")
             return of.reshape(a.shape)
-        return a * self.fam.sign(a, "abs")
+        return NAN if isinstance(a, NaNTerm) else a * self.fam.sign(a, "abs")
 
     np_absolute = np_abs
     np_fabs = np_abs
@@ -2234,11 +2342,11 @@ class Ev:
         return self._stack(seq, node, np.column_stack)
 
     def np_reshape(self, a, shape, node=None, order=None):
-        if order not in (None, "C"):
+        if order not in (None, "C", "F"):
             raise self.und("reshape order", node)
         shp = self._shape(shape)
         try:
-            return np.reshape(a, shp)
+            return np.reshape(a, shp, order=order or "C")
         except ValueError as err:
             raise ShapeFault(f"`{u(node)[:60]}`: {err}", node)
 
@@ -2514,7 +2622,7 @@ class Instance:
         for ix in np.ndindex(*self.nodes.shape):
             tnodes[ix] = fam.from_expr(self.nodes[ix])
         attrs = dict(dim=self.dim, nodes=tnodes, face_nodes=face_nodes, cell_faces=cell_faces, num_nodes=nn, num_faces=nf,
-                     num_cells=nc, history=[], name="instance", tags={}, periodic_face_map=np.zeros((2, 0), dtype=np.int64))
+                     num_cells=nc, history=[], name="instance")
         return GridObj(attrs)
 
     def single(self) -> "Instance":
@@ -2668,6 +2776,7 @@ class Outcome:
 
 def run_kernel(repo, inst: Instance, entry: str = "compute_geometry", nodes=None) -> Outcome:
     out = Outcome(inst)
+    inst.fam.restart_budget()
     g = inst.grid()
     if nodes is not None:
         g.attrs["nodes"] = nodes
